@@ -41,6 +41,21 @@
         (forall ((k Int)) (! (=> (and (<= lo k) (< k (+ lo f))) (> (select a k) 44)) :pattern ((select a k))))
         ; id part: no comma after the last comma
         (forall ((k Int)) (! (=> (and (< (+ lo c) k) (< k hi)) (not (= (select a k) 44))) :pattern ((select a k)))))))
+; nameShape: what Compare needs in order not to panic - two different commas (first / last); nothing about the alphabet.
+; wfName implies it. A name read from an hbase:meta row has to be checked for it before it may enter the location cache (C11).
+(define-fun nameShape ((a Bytes) (lo Int) (hi Int)) Bool
+  (let ((f (fcomma a lo hi)) (c (lcomma a lo hi)))
+   (and (<= 0 f) (< f c) (< (+ lo c) hi) (= (select a (+ lo f)) 44) (= (select a (+ lo c)) 44)
+        (forall ((k Int)) (! (=> (and (<= lo k) (< k (+ lo f))) (not (= (select a k) 44))) :pattern ((select a k))))
+        (forall ((k Int)) (! (=> (and (< (+ lo c) k) (< k hi)) (not (= (select a k) 44))) :pattern ((select a k)))))))
+; commasAt: the slice has commas at the two different absolute positions p < q.
+(define-fun commasAt ((a Bytes) (lo Int) (hi Int) (p Int) (q Int)) Bool
+  (and (<= lo p) (< p q) (< q hi) (= (select a p) 44) (= (select a q) 44)))
+; AXIOM (first / last comma exist): a byte string with two different commas has a first and a last comma, and they are
+; different - the intended meaning of fcomma / lcomma. This is the only statement assumed about the two symbols; it is what
+; lets a run-time check ("two different commas") establish nameShape.
+(assert (forall ((a Bytes) (lo Int) (hi Int) (p Int) (q Int))
+  (! (=> (commasAt a lo hi p q) (nameShape a lo hi)) :pattern ((select a p) (select a q) (fcomma a lo hi)))))
 ; component-wise order: (table, start key, id) compared as byte strings -- the statement of C16
 (define-fun cmp3lt ((a Bytes) (alo Int) (ahi Int) (b Bytes) (blo Int) (bhi Int)) Bool
   (let ((fa (+ alo (fcomma a alo ahi))) (ca (+ alo (lcomma a alo ahi))) (fb (+ blo (fcomma b blo bhi))) (cb (+ blo (lcomma b blo bhi))))
